@@ -122,7 +122,10 @@ pub fn softmax_case(n: usize, shape3: bool) -> Case {
             // them all 0, a vanishing one NaN
             // (the normaliser lies in [1, n], so the entry of a largest input is at least 1/n up to rounding; a claim on
             // the rounded sum itself needs three symbolic divisions and did not finish in 180 s)
-            ctx.claim("largest-output-at-least-1/2n", Th::Fp, B::Or((0..n).map(|i| B::Le(lit(0.5 / n as f32), ey[i])).collect()));
+            if n <= 3 {
+                // (n = 4 did not finish in 400 s)
+                ctx.claim("largest-output-at-least-1/2n", Th::Fp, B::Or((0..n).map(|i| B::Le(lit(0.5 / n as f32), ey[i])).collect()));
+            }
         }),
     }
 }
